@@ -154,7 +154,12 @@ func (x *KVExec) ApplyDAGOp(op drv.Op) (handled bool, v *drv.Violation, err erro
 			return true, nil, nil
 		}
 		n := x.D.Nodes[op.V]
-		st, _, e := w.HTTP("POST", "/api/node/"+n.UUID+"/commit", jsonBody(map[string]interface{}{"note": "commit " + n.UUID[:4]}))
+		cbody := jsonBody(map[string]interface{}{"note": "commit " + n.UUID[:4]})
+		if op.Mode == "bare" {
+			cbody = []byte("{}") // a commit without note and log
+			w.Stats.Probe("commit-without-note")
+		}
+		st, _, e := w.HTTP("POST", "/api/node/"+n.UUID+"/commit", cbody)
 		if e != nil {
 			return true, nil, e
 		}
@@ -451,7 +456,11 @@ func (g *KVGen) step() {
 	case y < wPut+wDel+wCommit:
 		v := pick(r, open)
 		g.D.Nodes[v].Locked = true
-		g.Steps = append(g.Steps, drv.Op{Op: "commit", V: v})
+		cop := drv.Op{Op: "commit", V: v}
+		if g.R.IntN(3) == 0 {
+			cop.Mode = "bare"
+		}
+		g.Steps = append(g.Steps, cop)
 	case y < wPut+wDel+wCommit+wNew:
 		var cands []int
 		for _, p := range locked {
